@@ -67,6 +67,7 @@ func (server *SugarDB) getHandlerFuncParams(ctx context.Context, cmd []string, c
 		SwapDBs:               server.SwapDBs,
 		GetServerInfo:         server.GetServerInfo,
 		DeleteKey: func(ctx context.Context, key string) error {
+			verifhook.Yield("ks.deleteKey")
 			server.storeLock.Lock()
 			defer server.storeLock.Unlock()
 			return server.deleteKey(ctx, key)
@@ -169,6 +170,7 @@ func (server *SugarDB) handleCommand(ctx context.Context, message []byte, conn *
 
 	// Data commands execute one at a time. (Admin commands such as SAVE and REWRITEAOF are excluded:
 	// they copy the state themselves, which takes the same lock.)
+	verifhook.Yield("cmd.begin")
 	if !strings.EqualFold(command.Module, constants.AdminModule) {
 		server.commandLock.Lock()
 		defer server.commandLock.Unlock()
